@@ -1524,8 +1524,29 @@ func checkSlotOverwrite(c *core.Ctx) {
 				default:
 					continue
 				}
-				root, path := chainOf(call.Common().Args[1])
-				fills = append(fills, fill{in, root, strings.Join(path, "."), slot})
+				// the destination may be chosen on the way (`last := stmt.Meta; if … { last = arg.GetMeta() }`): every
+				// candidate counts
+				var dests []ssa.Value
+				seenPhi := map[ssa.Value]bool{}
+				var expand func(v ssa.Value)
+				expand = func(v ssa.Value) {
+					if seenPhi[v] {
+						return
+					}
+					seenPhi[v] = true
+					if phi, isPhi := v.(*ssa.Phi); isPhi {
+						for _, e := range phi.Edges {
+							expand(e)
+						}
+						return
+					}
+					dests = append(dests, v)
+				}
+				expand(call.Common().Args[1])
+				for _, d := range dests {
+					root, path := chainOf(d)
+					fills = append(fills, fill{in, root, strings.Join(path, "."), slot})
+				}
 			}
 		}
 		if len(fills) == 0 {
